@@ -165,7 +165,14 @@ pub struct ChannelOutcome {
     pub file_io: (usize, usize, usize),
 }
 
+type Extra<T> = (&'static str, fn(&[u8]) -> Result<T, String>);
+
 fn decode_all<T: DeserializeOwned + PartialEq + Send + 'static>(t: &ChannelTrace, texts: Vec<(&'static str, String)>, scratch_file: std::path::PathBuf, dev: u64) -> ChannelOutcome {
+    decode_all_ext::<T>(t, texts, scratch_file, dev, vec![])
+}
+
+/// `extras`: further byte-slice entry points of the library that decode the same type
+fn decode_all_ext<T: DeserializeOwned + PartialEq + Send + 'static>(t: &ChannelTrace, texts: Vec<(&'static str, String)>, scratch_file: std::path::PathBuf, dev: u64, extras: Vec<Extra<T>>) -> ChannelOutcome {
     let t2 = t.clone();
     let r = exec::silenced(|| {
         exec::in_fresh_thread(t.io_seed, move || {
@@ -190,6 +197,9 @@ fn decode_all<T: DeserializeOwned + PartialEq + Send + 'static>(t: &ChannelTrace
                 push("serde_json::from_slice", sp, serde_json::from_slice::<T>(text.as_bytes()).map_err(|e| e.to_string()), false, &mut results, &mut values);
                 push("Json::from_slice", sp, Json::from_slice::<T>(text.as_bytes()).map_err(|e| e.to_string()), false, &mut results, &mut values);
                 push("JsonPretty::from_slice", sp, JsonPretty::from_slice::<T>(text.as_bytes()).map_err(|e| e.to_string()), false, &mut results, &mut values);
+                for (name, f) in &extras {
+                    push(name, sp, f(text.as_bytes()), false, &mut results, &mut values);
+                }
                 // JSON tree
                 match serde_json::from_str::<Value>(text) {
                     Ok(tree) => {
@@ -267,6 +277,9 @@ fn decode_all<T: DeserializeOwned + PartialEq + Send + 'static>(t: &ChannelTrace
                     push("serde_json::from_slice", sp, serde_json::from_slice::<T>(&raw).map_err(|e| e.to_string()), false, &mut results, &mut values);
                     push("Json::from_slice", sp, Json::from_slice::<T>(&raw).map_err(|e| e.to_string()), false, &mut results, &mut values);
                     push("JsonPretty::from_slice", sp, JsonPretty::from_slice::<T>(&raw).map_err(|e| e.to_string()), false, &mut results, &mut values);
+                    for (name, f) in &extras {
+                        push(name, sp, f(&raw), false, &mut results, &mut values);
+                    }
                     let mut rd = SimReader::new(&raw, t2.io_seed ^ 11, t2.chunked, t2.eintr_pct, None);
                     push("serde_json::from_reader", sp, serde_json::from_reader::<_, T>(&mut rd).map_err(|e| e.to_string()), false, &mut results, &mut values);
                     let mut rd = SimReader::new(&raw, t2.io_seed ^ 12, t2.chunked, t2.eintr_pct, None);
@@ -321,7 +334,16 @@ pub fn run_channel(t: &ChannelTrace, scratch: &Scratch) -> ChannelOutcome {
         "metablock" => decode_all::<in_toto::models::Metablock>(t, texts, file, dev),
         "layout" => decode_all::<in_toto::models::LayoutMetadata>(t, texts, file, dev),
         "link" => decode_all::<in_toto::models::LinkMetadata>(t, texts, file, dev),
-        "wrapper" => decode_all::<in_toto::models::MetadataWrapper>(t, texts, file, dev),
+        "wrapper" => decode_all_ext::<in_toto::models::MetadataWrapper>(
+            t,
+            texts,
+            file,
+            dev,
+            vec![
+                ("MetadataWrapper::try_from_bytes", |b| in_toto::models::MetadataWrapper::try_from_bytes(b).map_err(|e| e.to_string())),
+                ("MetablockBuilder::from_raw_metadata", |b| in_toto::models::MetablockBuilder::from_raw_metadata(b).map(|x| x.build().metadata).map_err(|e| e.to_string())),
+            ],
+        ),
         "rule" => decode_all::<in_toto::models::rule::ArtifactRule>(t, texts, file, dev),
         "step" => decode_all::<in_toto::models::step::Step>(t, texts, file, dev),
         "inspection" => decode_all::<in_toto::models::inspection::Inspection>(t, texts, file, dev),
@@ -629,7 +651,23 @@ pub fn gen_document_ext(r: &mut Rng, seed: u64) -> (String, Value, Option<(crate
         }
         1 => ("layout".into(), lv),
         2 => ("link".into(), linkv),
-        3 => ("wrapper".into(), if r.chance(1, 2) { lv } else { linkv }),
+        3 => ("wrapper".into(), match r.below(5) {
+            0 | 1 => lv,
+            2 | 3 => linkv,
+            _ => {
+                // a document that carries the members of both kinds (neither schema refuses unknown members)
+                let mut h = lv.clone();
+                if let (Some(o), Some(l)) = (h.as_object_mut(), linkv.as_object()) {
+                    for (k, v) in l {
+                        if k != "_type" {
+                            o.insert(k.clone(), v.clone());
+                        }
+                    }
+                    o.insert("_type".into(), json!(*r.pick(&["link", "layout", "neither"])));
+                }
+                h
+            }
+        }),
         4 => ("rule".into(), json!(rule_pool(r, "some-step"))),
         5 => ("step".into(), lv["steps"][0].clone()),
         6 => {
@@ -677,10 +715,20 @@ pub fn run_c17(tier: Tier, seed: u64, index: u64, scratch: &Scratch, rec: &mut R
         gen::leaves(&doc, "", &mut ls);
         if !ls.is_empty() {
             let (ptr, old) = r.pick(&ls).clone();
-            let nv = match (&old, r.below(4)) {
+            let nv = match (&old, r.below(7)) {
                 // a string of another length (key ids, digests and signatures have fixed lengths)
                 (Value::String(sv), 0) => json!(format!("{sv}0")),
                 (Value::String(sv), 1) if !sv.is_empty() => json!(sv[..sv.len() - sv.chars().last().unwrap().len_utf8()].to_string()),
+                // another letter case (hex digits, keywords, scheme names)
+                (Value::String(sv), 2) if sv.to_uppercase() != *sv => json!(sv.to_uppercase()),
+                (Value::String(sv), 2 | 3) if sv.to_lowercase() != *sv => json!(sv.to_lowercase()),
+                // one character that no validator should let through
+                (Value::String(sv), 4) if !sv.is_empty() => {
+                    let mut cs: Vec<char> = sv.chars().collect();
+                    let i = r.idx(cs.len());
+                    cs[i] = *r.pick(&['G', ' ', '+', 'g', '\u{e9}', '\u{0}']);
+                    json!(cs.into_iter().collect::<String>())
+                }
                 _ => gen::mutate_leaf(&mut r, &old),
             };
             if let Some(slot) = doc.pointer_mut(&ptr) {
